@@ -15,7 +15,8 @@ BUDGET = {"quick": 12000, "thorough": 160000}
 FUZZ = {"thorough": 6000}  # coverage-guided stage: libFuzzer runs per worker (x16), see vk/fuzz.py
 RULE = (
     "Hypothesis: 1-7 ballots over <=4 candidates, each ballot one of {ranking only, scores only, "
-    "both, neither}, tied positions allowed, weights/scores int | p/q | float (|x| >= 1e-5), "
+    "both, neither}, tied positions allowed, weights/scores int | p/q | float (|x| >= 1e-5; weights "
+    "also the Fraction holding a pooled float's exact binary value), "
     "optional id / voter set; profile B derived from A as {permutation, split/merge, one "
     "content's weight changed, one ballot's scores changed, independent}.  Non-trivial = some "
     "ranking occurs in A both with and without scores or with two different score dicts, and "
